@@ -142,7 +142,7 @@ func c05(c *Ctx) {
 			r.Undecide("R05.A", "pad:ige.EncryptMessageWithTempKeys", c.pos(f.Pos()), "padding amount not found")
 		} else {
 			var bad []string
-			for n := int64(0); n < 64; n++ {
+			for n := int64(0); n < c.upto(64, 4096); n++ {
 				p, ok := an.EvalInt(pad, func(v ssa.Value) (int64, bool) {
 					if call, ok := v.(*ssa.Call); ok && an.CalleeName(call.Common()) == "builtin:len" {
 						a := call.Call.Args[0]
@@ -252,7 +252,7 @@ func c05Strip(c *Ctx, f *ssa.Function) {
 	}
 	dm := cand.X
 	var bad []string
-	for _, L := range []int64{0, 12, 28, 44, 236} {
+	for _, L := range c.grid([]int64{0, 12, 28, 44, 236}, 0, 1024, 4) {
 		tried := map[int64]bool{}
 		neg := false
 		lenAtom := func(v ssa.Value) (int64, bool) {
@@ -363,7 +363,7 @@ func (c *Ctx) checkEncryptPad(rule string) {
 			r.Undecide(rule, "pad:ige.Encrypt", c.pos(f.Pos()), "size of the padded buffer not found")
 		} else {
 			var bad []string
-			for n := int64(0); n < 64; n++ {
+			for n := int64(0); n < c.upto(64, 4096); n++ {
 				total, ok := an.EvalInt(size, func(v ssa.Value) (int64, bool) {
 					if an.IsLenOf(v, func(x ssa.Value) bool { return x == ssa.Value(f.Params[0]) }) {
 						return n, true
